@@ -241,6 +241,19 @@ static void run_program(Rng& r) {
         count("colliding_seed_hash_merges");
       }
     }
+    // every other shape with the same number of cells (same seed): the tables have equal size but another layout
+    {
+      const uint64_t cells = uint64_t(nh) * nb;
+      unsigned tried = 0;
+      for (uint64_t h2 = 1; h2 <= 255 && tried < 6; ++h2) {
+        if (cells % h2 != 0 || h2 == nh || cells / h2 < 3 || cells / h2 > 0xffffffffULL) continue;
+        count_min_sketch<W> o5(uint8_t(h2), uint32_t(cells / h2), seed);
+        o5.update(uint64_t(7), W(2));
+        VF_CHECK(throws([&] { sk[0]->merge(o5); }), Tk + "incompatible-merge-accepted|same-cell-count-other-shape",
+                 G().cur_desc + " other=" + std::to_string(h2) + "x" + std::to_string(cells / h2));
+        ++tried; count("same_cell_count_other_shape_merges");
+      }
+    }
     observe(*sk[0], md[0], universe, r, "refused-merges", false);
     count("refused_merges");
   }
